@@ -95,6 +95,12 @@ def h : Handler := fun op j =>
   | "sulfuric_acid_density" => do
       let a ← floatArgs j 2
       pure (withMsgs (sulfuricAcidDensity a[0]! a[1]!) (sulfuricTWarnMsgs a[0]! a[1]!))
+  | "sulfuric_acid_density_defT" => do
+      let a ← floatArgs j 1
+      pure (withMsgs (tableSum a[0]! (sulfuricTdef a[0]!) sulfuric_data 0) (sulfuricTdefWarnMsgs a[0]!))
+  | "sulfuric_acid_density_T0" => do
+      let a ← floatArgs j 3
+      pure (withMsgs (tableSum a[0]! (sulfuricTT0 a[0]! a[1]! a[2]!) sulfuric_data 0) (sulfuricTT0WarnMsgs a[0]! a[1]! a[2]!))
   | "sulfuric_acid_density_rat" => do
       match (← getRatList j "a") with
       | [w, T] => pure (showRat (sulfuricAcidDensity w T) ++ "|" ++ showStrList (sulfuricTWarnMsgs w T))
